@@ -5,8 +5,8 @@ import sys
 from lib.core import *
 
 ID = "C18"
-PROPS_FILES = ["Gama/Props/C18.lean"]
-LEAN_TARGETS = ["Gama.Props.C18"]
+PROPS_FILES = ["Gama/Props/C18.lean", "Gama/Props/C18Strings.lean", "Gama/Props/C18Published.lean"]
+LEAN_TARGETS = ["Gama.Props.C18", "Gama.Props.C18Strings", "Gama.Props.C18Published"]
 DRIVERS = ["drv_geo"]
 RULE = ("streams: ell (every table ellipsoid + default + random set_ab/af/af1; lat in [-90,90] incl. poles, lon in (-180,180] "
         "incl. antimeridian, h in [-10 km, 20000 km]), ang (gon2deg/rad2deg/latlong/deg2gon/dms2rad/rad2dms over specials: "
@@ -79,6 +79,24 @@ def translate(ctx):
         raise TieBroken("c18_ellipsoid", str(e))
     if ch:
         ctx.log("Gen/EllipsoidExpr.lean regenerated:", len(members), "data members")
+    # round 9: gon2deg / latlong (numeric prefix translated, iostream tail pinned), rad2deg_str, dms2rad, rad2dms (Gen/AnglesFns.lean)
+    from gen import c18_angles as ga
+    try:
+        if ga.run(ctx.repo, ctx.lean):
+            ctx.log("Gen/AnglesFns.lean regenerated")
+    except ga.Unparsable as e:
+        raise TieBroken("c18_angles", str(e))
+    except (OSError, ValueError, KeyError, IndexError) as e:
+        raise TieBroken("c18_angles", repr(e))
+    # round 9: the published list xml/ellipsoids.xml (Gen/EllipsoidsPublished.lean), compared with the code table by `decide`
+    from gen import c18_published as gp
+    try:
+        if gp.run(ctx.repo, ctx.lean):
+            ctx.log("Gen/EllipsoidsPublished.lean regenerated")
+    except gp.Unparsable as e:
+        raise TieBroken("c18_published", str(e))
+    except (OSError, ValueError, KeyError, IndexError) as e:
+        raise TieBroken("c18_published", repr(e))
 
 
 # ------------------------------------------------------------------ generators
